@@ -222,7 +222,9 @@ impl<T: Qcow2IoOps> Qcow2Dev<T> {
             } else {
                 // the top device is asking for read, which is usually
                 // caused by top device resize, so simply fake we provide
-                // data requested
+                // data requested, and anything beyond the end of backing
+                // image reads as zero
+                zero_buf!(buf);
                 return Ok(buf.len());
             }
         }
@@ -246,6 +248,8 @@ impl<T: Qcow2IoOps> Qcow2Dev<T> {
             // backed by data, rounded down to a block boundary.
             len = ((vsize - offset) as usize) & !bs_mask;
             if info.is_back_file() {
+                // the part beyond the end of backing image reads as zero
+                zero_buf!(&mut buf[len..]);
                 buf.len() - len
             } else {
                 0
